@@ -142,7 +142,7 @@ var basePrograms = []string{
 	`$a = 1; $a += 2; $a -= 1; $a *= 3; echo $a . "x";`,
 	`$a = true && false || !true; echo $a ? 1 : 0;`,
 	`echo -1 + (2 * 3) - 4 / 2 % 3;`,
-	`$a = [1, [2, 3]]; echo $a[1][0]; list($p, $q) = [1, 2]; echo $p + $q;`,
+	`$a = [1, [2, 3]]; echo $a[1][0]; [$p, $q] = [1, 2]; echo $p + $q;`,
 	`function g(int ...$xs) { $t = 0; foreach ($xs as $x) { $t += $x; } return $t; } echo g(1, 2);`,
 	`interface I { function m(); } class S implements I { function m() { return 1; } } echo (new S())->m();`,
 	`abstract class T { abstract function n(); } class U extends T { function n() { return 2; } } $u = new U(); echo $u->n();`,
@@ -150,10 +150,10 @@ var basePrograms = []string{
 	`$o = new stdClass(); $o->p = 1; echo $o->p; echo $o instanceof stdClass ? "y" : "n";`,
 	`$f = function() use (&$c) { $c = 1; }; $f(); echo $c;`,
 	`$i = 0; while (true) { $i++; if ($i > 2) { break; } continue; } echo $i;`,
-	`echo <<<X
-a $i b
-X;
-`,
+	`$i = 1; $h = <<<EOT
+a {$i} b
+EOT;
+echo $h;`,
 	`static $z = 1; global $w; const K = 3; echo K;`,
 	`$s = 'a' . "b" . 1; echo strlen($s), strtoupper($s);`,
 	`$a = [3, 1, 2]; sort($a); echo implode(",", $a);`,
